@@ -37,6 +37,7 @@ HAND_RAW = {
  "loop_counter": "main:\n    li t0, 0\n    li t1, 10\nloop:\n    addi t0, t0, 1\n    blt t0, t1, loop\n    mv a0, t0\n" + EXIT,
  "loop_sp": "main:\n    addi sp, sp, -8\n    sw s0, 0(sp)\n    li s0, 3\nloop:\n    addi s0, s0, -1\n    bnez s0, loop\n    lw s0, 0(sp)\n    addi sp, sp, 8\n" + EXIT,
  "call_saved": "main:\n    li s0, 5\n    li t0, 6\n    jal ra, f\n    add a0, s0, t0\n" + EXIT + "f:\n    addi sp, sp, -4\n    sw s0, 0(sp)\n    li s0, 9\n    lw s0, 0(sp)\n    addi sp, sp, 4\n    ret\n",
+ "call_all_temps": "main:\n    li t0, 1\n    li t1, 2\n    li t2, 3\n    li t3, 4\n    li t4, 5\n    li t5, 6\n    li t6, 7\n    li a0, 8\n    li a7, 9\n    li s11, 10\n    jal ra, f\n    add a1, t5, t6\n" + EXIT + "f:\n    li t5, 70\n    li t6, 77\n    li a0, 1\n    ret\n",
  "call_slot": "main:\n    addi sp, sp, -8\n    li t0, 3\n    sw t0, 4(sp)\n    jal ra, f\n    lw t1, 4(sp)\n    addi sp, sp, 8\n" + EXIT + "f:\n    li a0, 1\n    ret\n",
  "two_returns": "main:\n    jal ra, f\n" + EXIT + "f:\n    addi sp, sp, -4\n    sw ra, 0(sp)\n    beqz a0, early\n    lw ra, 0(sp)\n    addi sp, sp, 4\n    ret\nearly:\n    li a0, 1\n    lw ra, 0(sp)\n    addi sp, sp, 4\n    ret\n",
  "data_label": ".data\ndata: .word 1, 2\n.text\nmain:\n    la t0, data\n    lw t1, 4(t0)\n" + EXIT,
